@@ -1476,6 +1476,11 @@ void Executor<OptionsTy>::go() {
     } else {
       this->calculateWindow(false);
 
+      // calculateWindow reads every thread's commit statistics and
+      // nextWindow() resets them: without the barrier (as in the inner loop)
+      // a slow thread sums half-reset counters and picks a different window
+      barrier.wait();
+
       this->pushNextWindow(tld.wlnext, local.nextWindow());
     }
   }
